@@ -19,6 +19,7 @@ type SV struct {
 	sort  string
 	place *Place
 	lit   bool // untyped integer literal
+	gtext string // declared sort text of a ghost value (map[K]V / set[K]), so that indexing recovers V's Go type
 }
 
 type Scope struct {
@@ -423,6 +424,9 @@ func (un *Unit) evIdent(name string, sc *Scope) SV {
 	switch name {
 	case "nil":
 		return SV{t: "nil", sort: "nil"}
+	case "heldlocks":
+		// number of locks the current call chain holds (maintained by the lock model)
+		return SV{t: un.get(sc.cur, un.comp("G_heldlocks", "Int", "ghost")), typ: types.Typ[types.Int]}
 	}
 	if g, ok := un.specs.Ghosts[name]; ok && !g.Field {
 		_, s, err := sc.resolveType(g.Sort)
@@ -430,7 +434,7 @@ func (un *Unit) evIdent(name string, sc *Scope) SV {
 			return sc.fail("ghost %s: %v", name, err)
 		}
 		c := un.comp("G_"+name, s, "ghost")
-		return SV{t: un.get(sc.cur, c), sort: s}
+		return SV{t: un.get(sc.cur, c), sort: s, gtext: g.Sort}
 	}
 	// package-level constant or variable of the scope's package
 	if sc.pkg != nil {
@@ -768,7 +772,29 @@ func (un *Unit) evIndex(e *EIndex, sc *Scope) SV {
 		if strings.HasPrefix(x.sort, "(Array ") {
 			_, es = splitArraySort(x.sort)
 		}
-		return SV{t: sel(x.t, i.t), sort: es}
+		out := SV{t: sel(x.t, i.t), sort: es}
+		if strings.HasPrefix(x.gtext, "map[") {
+			// recover the value type of map[K]V
+			d := 0
+			for k := 3; k < len(x.gtext); k++ {
+				if x.gtext[k] == '[' {
+					d++
+				}
+				if x.gtext[k] == ']' {
+					d--
+					if d == 0 {
+						vtext := strings.TrimSpace(x.gtext[k+1:])
+						if vt, vs, err := sc.resolveType(vtext); err == nil {
+							out.typ, out.sort, out.gtext = vt, vs, vtext
+						}
+						break
+					}
+				}
+			}
+		} else if strings.HasPrefix(x.gtext, "set[") {
+			out.typ, out.sort = types.Typ[types.Bool], "Bool"
+		}
+		return out
 	}
 	switch xt := x.typ.Underlying().(type) {
 	case *types.Slice:
@@ -1009,7 +1035,7 @@ func (un *Unit) evCall(e *ECall, sc *Scope) SV {
 		x := arg(0)
 		ks := x.sortIn(un.u)
 		c := un.comp("G_"+e.Fun, arraySort(ks, s), "ghost")
-		return SV{t: sel(un.get(sc.cur, c), x.t), sort: s}
+		return SV{t: sel(un.get(sc.cur, c), x.t), sort: s, gtext: g.Sort}
 	}
 	// spec function
 	if sf, ok := un.specs.SpecFns[e.Fun]; ok {
@@ -1107,6 +1133,7 @@ func (un *Unit) applySpecFn(sf *SpecFn, e *ECall, sc *Scope) SV {
 
 func (un *Unit) applyContract(fr *Frame, st *State, fc *FuncContract, names []string, sig *types.Signature, args []Val, calleeKey string, pos token.Pos) Val {
 	pre := st.clone()
+	preFacts := len(un.facts)
 	sc := &Scope{un: un, vars: map[string]SV{}, cur: st, old: pre, pkg: un.pkgByName(fc.Pkg), fr: fr}
 	if sc.pkg == nil {
 		sc.pkg = un.pkgOf(fr.fn)
@@ -1199,7 +1226,7 @@ func (un *Unit) applyContract(fr *Frame, st *State, fc *FuncContract, names []st
 		un.havocVolatile(st)
 	}
 	for _, cl := range fc.Clauses {
-		if cl.Kind == "modifies" {
+		if cl.Kind == "modifies" && !mentionsResult(cl.Text) {
 			un.havocLvalue(cl.Text, sc, st)
 		}
 	}
@@ -1243,6 +1270,16 @@ func (un *Unit) applyContract(fr *Frame, st *State, fc *FuncContract, names []st
 		post.vars[k] = v
 	}
 	un.bindResults(post, sig, rvals, fc)
+	// locations named through the result (e.g. ghost state of a returned object) are havoc'd once the result exists
+	for _, cl := range fc.Clauses {
+		if cl.Kind == "modifies" && mentionsResult(cl.Text) {
+			hs := post.child()
+			hs.old = st
+			hs.cur = st
+			un.havocLvalue(cl.Text, hs, st)
+		}
+	}
+	nEns := 0
 	for _, cl := range fc.Clauses {
 		if cl.Kind != "ensures" {
 			continue
@@ -1252,6 +1289,22 @@ func (un *Unit) applyContract(fr *Frame, st *State, fc *FuncContract, names []st
 		}
 		t, _ := un.evalSpec(cl.E, post)
 		un.assume(st, t)
+		nEns++
+	}
+	hasGhost := false
+	for _, cl := range fc.Clauses {
+		if cl.Ghost {
+			hasGhost = true
+		}
+	}
+	if nEns > 0 && (hasGhost || fc.Trusted || un.wantCallCovers) {
+		// vacuity guard: the assumed postcondition must be consistent with what is known at this call site:
+		// "reachable before the call" and "unreachable after it" together mean the contract contradicts the context
+		name := un.uniqueName(fmt.Sprintf("%s/cover:call-%s", funcKey(un.fn), shortKey(calleeKey)))
+		un.obls = append(un.obls, &Obl{Name: name + "@before", Kind: "cover", Guard: "true", Goal: pre.guard, NFacts: preFacts, Fn: funcKey(un.fn), Cover: true, OptionalCover: true,
+			Text: "call site reachable"})
+		un.obls = append(un.obls, &Obl{Name: name + "@after", Kind: "cover", Guard: "true", Goal: st.guard, NFacts: len(un.facts), Fn: funcKey(un.fn), Cover: true, OptionalCover: true,
+			Text: "the callee's assumed postcondition is consistent with the call site's context"})
 	}
 	return res
 }
@@ -1275,11 +1328,18 @@ func (un *Unit) havocLvalue(text string, sc *Scope, st *State) {
 			return
 		}
 		if g.Field {
-			// whole field: key sort unknown here unless the component exists
+			// whole field: all locations
 			c := "G_" + text
-			if _, ok := un.compSort[c]; ok {
-				un.havocComp(st, c)
+			if _, ok := un.compSort[c]; !ok {
+				ks := "Int"
+				if g.Type != "" {
+					if _, ksort, err := sc.resolveType(g.Type); err == nil && ksort != "" {
+						ks = ksort
+					}
+				}
+				un.comp(c, arraySort(ks, s), "ghost")
 			}
+			un.havocComp(st, c)
 			return
 		}
 		c := un.comp("G_"+text, s, "ghost")
@@ -1641,4 +1701,14 @@ func (un *Unit) attrFacts(ref string, fn *ssa.Function, binds []Val, st *State, 
 			un.addFact("(forall (" + strings.Join(bindsQ, " ") + ") " + eq(app, body) + ")")
 		}
 	}
+}
+
+
+func mentionsResult(t string) bool {
+	for _, w := range []string{"result", "ret0", "ret1"} {
+		if strings.Contains(t, w) {
+			return true
+		}
+	}
+	return false
 }
